@@ -63,7 +63,32 @@ def model_samesheet(H=M.B, C=M.C):
     return {'cells': cells, 'arrays': {}, 'names': {'%s|TENTH' % C: cell('Data', 'A10', C)}, 'sheets': [[H, 'Data'], [C, 'Data']]}
 
 
-FIXED = dict(M.MODELS, anchor=model_anchor, col=model_col, samesheet=model_samesheet, samesheet2=lambda: model_samesheet(M.C, M.B))
+def model_longspill():
+    """an array formula block whose rows change digit count (B2:B12); dependents of single spill cells at rows 4, 9, 10, 11, 12."""
+    K, cell, rng, op, fn, num, const = M.K, M.cell, M.rng, M.op, M.fn, M.num, M.const
+    cells = {K('S', 'A%d' % r): const(('n', float(r))) for r in range(2, 13)}
+    for r in (4, 9, 10, 11, 12):
+        cells[K('S', 'D%d' % r)] = op('+', cell('S', 'B%d' % r), num(1))
+    cells[K('S', 'E1')] = fn('SUM', rng('S', 'B9:B10'))
+    return {'cells': cells, 'arrays': {K('S', 'B2:B12'): op('*', rng('S', 'A2:A12'), num(2))}, 'names': {}, 'sheets': [[M.B, 'S']]}
+
+
+def model_quoted():
+    """sheets whose titles need quoting (apostrophe + lower case, blank, digit first), reached only through references."""
+    K, cell, rng, op, fn, num, const = M.K, M.cell, M.rng, M.op, M.fn, M.num, M.const
+    q, w, d = "Bob's data", 'my sheet', '2nd'
+    cells = {
+        K(q, 'A1'): const(('n', 10.0)), K(q, 'A2'): const(('n', 20.0)), K(q, 'B3'): op('+', cell(q, 'A1'), cell(q, 'A2')),
+        K(w, 'A1'): const(('n', 3.0)), K(w, 'B1'): op('*', cell(w, 'A1'), cell(q, 'B3')),
+        K(d, 'A1'): const(('n', 4.0)), K(d, 'B1'): fn('SUM', rng(q, 'A1:A2'), cell(d, 'A1')),
+        K('Summary', 'B1'): op('*', cell(q, 'B3'), num(2)), K('Summary', 'B2'): fn('SUM', rng(q, 'A1:A2')),
+        K('Summary', 'B3'): op('+', cell(w, 'B1'), cell(d, 'B1')),
+    }
+    return {'cells': cells, 'arrays': {}, 'names': {}, 'sheets': [[M.B, 'Summary'], [M.B, q], [M.B, w], [M.B, d]]}
+
+
+FIXED = dict(M.MODELS, anchor=model_anchor, col=model_col, samesheet=model_samesheet, samesheet2=lambda: model_samesheet(M.C, M.B),
+             longspill=model_longspill, quoted=model_quoted)
 
 
 def spec_of(wb):
